@@ -413,6 +413,30 @@ def vRepeatInterleave (g : DG) (o : DOp) : Option Fus :=
       | _, _ => none
     | _, _, _, _, _ => none
 
+/-- `GroupedQueryAttentionMatMulFusion` (with the fix: an RHS Transpose must be `perm = [0,1,3,2]`):
+`MatMul(a, RepeatInterleave(b))` or `FusedMatMul(a, Transpose(RepeatInterleave(b)))`; repeated axis 1,
+both operands of known rank 4 with fixed head counts, `query_heads = kv_heads * repeats`. -/
+def vGqa (g : DG) (o : DOp) : Option Fus :=
+  patFusion g o gqaPat "GroupedQueryAttentionMatMul" ["a", "b"] fun s =>
+    match (s.find "repeat").bind g.op?, s.find "a", s.find "b" with
+    | some rep, some a, some b =>
+      let repeats := attr1 rep "repeats" 0
+      match g.shape a, g.shape b with
+      | some sa, some sb =>
+        if attr1 rep "axis" 0 != 1 || sa.length != 4 || sb.length != 4 then none else
+        match (sa.getD 1 "").toNat?, (sb.getD 1 "").toNat? with
+        | some qh, some kvh =>
+          if (qh : Int) != (kvh : Int) * repeats then none else
+          match (s.find "transpose").bind g.op? with
+          | some tr =>
+            if tr.attr "perm" != some [0, 1, 3, 2] then none else
+            let alpha := ((s.find "scaled_matmul").bind g.op?).bind (·.attr "alpha")
+            some ([("repeats", [repeats]), ("trhs", [1])] ++ (match alpha with | some al => [("alpha", al)] | none => []))
+          | none => some [("repeats", [repeats]), ("trhs", [0])]
+        | _, _ => none
+      | _, _ => none
+    | _, _, _ => none
+
 /-- `TransposeFusion`: a Transpose (with its one input present) feeding any input position of
 MatMul / FusedMatMul / Concat / Expand / Slice / Split is folded into a `TransformInputs(<op>)`
 wrapper that permutes that input's view; no restriction on `perm` (absent = reverse the axes).
@@ -456,7 +480,7 @@ def visitorsMain : List (DG → DOp → Option Fus) :=
         -- the fused operator inherits `flush_nans_to_zero` from the Softmax it replaces
         if lastAxis g sm softmaxAxis then some [("flush", [((g.op? sm).map fun so => attr1 so "flush" 0).getD 0])] else none
       | none => none,
-    vRepeatInterleave,
+    vRepeatInterleave, vGqa,
     vTranspose ]
 
 /-! ## apply_fusion -/
@@ -606,6 +630,9 @@ def attrText (o : DOp) : String :=
   else if o.ty == "Softmax" then
     "{axis=" ++ toString (attr1 o "axis" (-1)) ++ ",flush=" ++ toString (attr1 o "flush" 0) ++ "}"
   else if o.ty == "AddSoftmax" then "{flush=" ++ toString (attr1 o "flush" 0) ++ "}"
+  else if o.ty == "GroupedQueryAttentionMatMul" then
+    let al := match o.attr "alpha" with | some [x] => toString x | _ => "none"
+    "{repeats=" ++ toString (attr1 o "repeats" 0) ++ ",alpha=" ++ al ++ ",trhs=" ++ toString (attr1 o "trhs" 0) ++ "}"
   else if o.ty == "RepeatInterleave" then
     "{axis=" ++ toString (attr1 o "axis" 0) ++ ",repeats=" ++ toString (attr1 o "repeats" 0) ++ "}"
   else if o.ty.startsWith "TransformInputs(" then
@@ -639,8 +666,7 @@ def sideConditionsOk (g : DG) : Bool :=
 def optimize (g : DG) : Option DG :=
   if g.hasK then none
   else if g.ops.any (fun o => !knownTypes.contains o.ty) then none
-  -- GroupedQueryAttentionMatMulFusion (MatMul over a RepeatInterleave) is not modelled
-  else if g.ops.any (fun o => o.ty == "Reshape") && g.ops.any (fun o => o.ty == "MatMul") then none
+
   else
     let (g, _) := applyFusions g visitorsEarly
     if constPropFires g then none
